@@ -193,9 +193,31 @@ class Universe:
                     (bns if hd.get('base') else dns)[meth] = fn
             base = type('B%d' % cid, (BaseComponent,), bns)
             comp = type('D%d' % cid, (base,), dns)()
+        elif shape == 'mixin':
+            # class Sub(A, Mixin) with A(Base): handlers carry 'cls' in {'base', 'a', 'mixin', 'sub'} and 'meth';
+            # per the documented rule a method that does not say override=True is an additional handler
+            nss = {'base': {'channel': chan}, 'a': {}, 'mixin': {}, 'sub': {}}
+            for hid, hd in sorted(hs.items()):
+                meth = hd.get('meth', 'h%d' % hid)
+                nss[hd.get('cls', 'sub')][meth] = self._make_handler_func(hid, hd, handler, name=meth)
+            base = type('MB%d' % cid, (BaseComponent,), nss['base'])
+            a = type('MA%d' % cid, (base,), nss['a'])
+            mixin = type('MM%d' % cid, (object,), nss['mixin'])
+            comp = type('MS%d' % cid, (a, mixin), nss['sub'])()
         elif shape == 'implicit':
             ns = {'channel': chan}
             uni = self
+            # public methods explicitly marked @handler(False) must NOT become implicit handlers
+            for hid, hd in sorted(hs.items()):
+                if hd.get('nohandler'):
+                    def mkn(hid=hid):
+                        def m(self, event=None, *a, **kw):
+                            return uni._run_handler(hid, self, event, False)
+                        return m
+                    fn = handler(False)(mkn())
+                    fn.__name__ = hd['names'][0]
+                    fn._u_hid = hid
+                    ns[hd['names'][0]] = fn
             for hid, hd in sorted(live0.items()):
                 def mk(hid=hid):
                     def m(self, event, *a, **kw):
